@@ -51,6 +51,16 @@ def gen(rng, tier):
             s.loads = [{"kind": "c", "term": "fy", "local": True, "bar": b["id"], "t": Fr("0.5"), "v": Fr(-1000)},
                        {"kind": "c", "term": "mz", "local": True, "bar": b["id"], "t": Fr("0.5"), "v": Fr(40000)},
                        {"kind": "c", "term": "fy", "local": True, "bar": b["id"], "t": Fr("0.3"), "v": Fr(-350)}]
+        near_even = (g % 7 == 5)
+        if near_even:
+            # a beam whose only required positions are an even tenth and a point within the slicing tolerance (1e-3) of another
+            # even tenth, which takes that tenth's place: ten finite elements still, but not ten equal ones - one load in each half
+            s = G.gen_beam(rng)
+            b = s.bars[0]
+            s.nodes[b["n1"]] = s.nodes[b["n1"]][:2] + ((True, True, True),)
+            off = Fr(rng.choice(["0.1009", "0.1006", "0.3004", "0.0993"]))
+            s.loads = [{"kind": "c", "term": "fy", "local": True, "bar": b["id"], "t": off, "v": Fr(-800)},
+                       {"kind": "c", "term": "fy", "local": True, "bar": b["id"], "t": Fr("0.5"), "v": Fr(-1500)}]
         if len(s.loads) < 2:
             s.loads += G.gen_loads_for_bar(rng, s.bars[0]["id"], nmax=3, allow_mz_dist=False) or []
         # every factor is used by some group of every run (the tiny ones push whole load sets under the
@@ -70,7 +80,9 @@ def gen(rng, tier):
         half = [rng.random() < 0.5 for _ in s.loads]
         if sym:
             half = [True, True, False]
-        if g % 2 == 0:
+        if near_even:
+            half = [True, False]
+        if g % 2 == 0 and not near_even:
             # two concentrated loads closer than the slicing tolerance (1e-3) but distinct, one in each half
             b = rng.choice([b for b in s.bars if b["l1"][2] or b["l2"][2]] or s.bars)
             t0 = Fr(rng.choice(["0.25", "0.5", "0.37", "0.6431"]))
@@ -81,7 +93,7 @@ def gen(rng, tier):
                     s.loads.append({"kind": "c", "term": rng.choice(["fy", "fy", "fx", "mz"]), "local": True, "bar": b["id"], "t": tt,
                                     "v": Fr(rng.choice([-1, 1]) * rng.choice([100, 250, 1000]))})
                     half.append(h)
-        if g % 3 == 1:
+        if g % 3 == 1 and not near_even:
             # a local-axes and a global-axes load at exactly the same point of a (preferably inclined) bar, one in each half
             def inclined(b):
                 (x1, y1, _), (x2, y2, _) = s.nodes[b["n1"]], s.nodes[b["n2"]]
@@ -93,7 +105,7 @@ def gen(rng, tier):
                 for local, term, h in ((True, "fy", True), (False, rng.choice(["fx", "fy"]), False)):
                     s.loads.append({"kind": "c", "term": term, "local": local, "bar": b["id"], "t": tt, "v": Fr(rng.choice([-3000, 2000, 700]))})
                     half.append(h)
-        if g % 3 == 2:
+        if g % 3 == 2 and not near_even:
             b = ([b for b in s.bars if b["l1"][2] or b["l2"][2]] or s.bars)[0]
             t0, t1 = Fr(rng.choice(["0.2", "0.1"])), Fr(rng.choice(["0.6", "0.45"]))
             if all(abs(tt - x) > Fr("0.002") for tt in (t0, t1) for l in s.loads if l["bar"] == b["id"] for x in ([l["t"]] if l["kind"] == "c" else [l["t0"], l["t1"]])):
